@@ -39,4 +39,26 @@ Definition C03_votes_only_valid_statement : Prop :=
     v_type v = Prevote -> bid_is_zero (v_bid v) = false ->
     exists b, held (received pre) b /\ b_hash b = bh (v_bid v) /\ valid (v_height v) b = true.
 
+Definition C03_precommit_needs_polka_statement : Prop :=
+  forall ins post pre v,
+    final_log ins = post ++ EvOut (SignVote v) :: pre ->
+    v_type v = Precommit -> bid_is_zero (v_bid v) = false ->
+    quorum_received (received pre) Prevote (v_height v) (v_round v) (v_bid v) /\
+    exists b, held (received pre) b /\ b_hash b = bh (v_bid v) /\ valid (v_height v) b = true.
+
+Definition C03_lock_rule_statement : Prop :=
+  forall ins l3 l2 l1 p x,
+    final_log ins = l3 ++ EvOut (SignVote x) :: l2 ++ EvOut (SignVote p) :: l1 ->
+    v_type p = Precommit -> bid_is_zero (v_bid p) = false ->
+    v_type x = Prevote -> bid_is_zero (v_bid x) = false ->
+    v_height x = v_height p -> v_round p < v_round x -> bh (v_bid x) <> bh (v_bid p) ->
+    exists r'' y, v_round p < r'' /\ r'' <= v_round x /\ bh y <> bh (v_bid p) /\
+                  quorum_received (received (l2 ++ EvOut (SignVote p) :: l1)) Prevote (v_height p) r'' y.
+
+Definition C03_commit_needs_quorum_statement : Prop :=
+  forall ins post pre h b r,
+    final_log ins = post ++ EvOut (Commit h b r) :: pre ->
+    valid h b = true /\
+    exists id, bh id = b_hash b /\ quorum_received (received pre) Precommit h r id.
+
 End Statements.
